@@ -523,6 +523,63 @@ func specialPackets(e int, lid byte) [][]byte {
 	return out
 }
 
+func d6Family() []Desc {
+	sd := serverDUID()
+	p := b2r(sd)
+	cids := [][]byte{nil, d6opt(1, nil), d6opt(1, []byte{7}), d6opt(1, []byte{0, 1, 0xaa, 0xbb})}
+	sids := [][]byte{nil, d6opt(2, nil), d6opt(2, []byte{0}), d6opt(2, sd[:2]), d6opt(2, append(append([]byte{}, sd[:2]...), 9)),
+		d6opt(2, sd), d6opt(2, []byte{0, 1, 1, 2, 3, 4}), cat(be16(2), be16(40), sd)}
+	iaaddr := cat(make([]byte, 15), []byte{1}, be32(3600), be32(7200))
+	iapfx := cat(be32(3600), be32(7200), []byte{56}, make([]byte, 16))
+	ia := func(code int, inner []byte) []byte { return d6opt(code, cat(be32(1), be32(0), be32(0), inner)) }
+	ianas := [][]byte{nil, d6opt(3, nil), d6opt(3, []byte{1}), d6opt(3, make([]byte, 11)), ia(3, nil), ia(3, d6opt(5, iaaddr)),
+		ia(3, d6opt(5, iaaddr[:23])), ia(3, d6opt(5, nil)), ia(3, cat(be16(5), be16(24), iaaddr[:10])), cat(be16(3), be16(12), make([]byte, 5))}
+	iapds := [][]byte{nil, d6opt(25, nil), d6opt(25, []byte{1}), d6opt(25, make([]byte, 11)), ia(25, nil), ia(25, d6opt(26, iapfx)),
+		ia(25, d6opt(26, iapfx[:24])), ia(25, d6opt(26, nil)), cat(be16(25), be16(12), make([]byte, 5))}
+	var out []Desc
+	add := func(ty int, parts ...[]byte) {
+		out = append(out, Desc{E: ED6Handle, P: p, D: cat(append([][]byte{{byte(ty), 1, 2, 3}}, parts...)...)})
+	}
+	for ty := 0; ty <= 14; ty++ {
+		for _, c := range cids {
+			for _, sv := range sids {
+				add(ty, c, sv)
+				if ty == 3 {
+					add(ty, sv, c) // Server ID first
+					add(ty, c, sv, ia(3, nil), ia(25, nil))
+				}
+			}
+		}
+		for _, a := range ianas {
+			for _, d := range iapds {
+				add(ty, cids[3], d6opt(2, sd), a, d)
+			}
+		}
+		add(ty, cids[3], d6opt(2, sd), d6opt(14, nil), ia(3, d6opt(5, iaaddr)))
+	}
+	return out
+}
+
+func createSeqFamily() [][]uint64 {
+	frees := [][]uint64{{}, {65535}, {65534}, {1}, {32768}, {65534, 65535}, {1, 65535}, {1, 2}, {65533, 65534, 65535}, {2, 65534}}
+	nexts := []uint64{1, 65534, 65535, 0}
+	var out [][]uint64
+	k := 0
+	for _, f := range frees {
+		for _, nx := range nexts {
+			for _, zero := range []uint64{0, 1} {
+				if zero == 1 && (len(f) != 1 || nx == 65534) { // the id-0 corner only with a few shapes
+					continue
+				}
+				mode := uint64(k % 2)
+				k++
+				out = append(out, append([]uint64{mode, 3, zero, nx}, f...))
+			}
+		}
+	}
+	return out
+}
+
 func isPure(e int) bool {
 	for _, x := range pureEntries {
 		if x == e {
@@ -750,6 +807,21 @@ func main() {
 				}
 			}
 		}
+	}
+	// DHCPv6 datagram glue: for every message type, each option the handlers read (Client ID,
+	// Server ID, IA_NA, IA_PD and the nested IAAddr / IAPrefix) absent / zero-length / 1 byte /
+	// truncated / valid, through the real receiveLoop body (hook) under recover
+	for k, d := range d6Family() {
+		if d.D[0] == 3 || k%4 == 0 { // all Request datagrams and a quarter of the rest through the Model too
+			emit(d, "dhcpv6-option-family")
+		} else {
+			probe(d, "dhcpv6-option-family")
+		}
+	}
+	// session-id table filled to every boundary (65533 / 65534 / 65535 live, and the id-0 corner),
+	// cursor at 1 / 0xFFFE / 0xFFFF / 0, then three more CreateSession calls or ordinary PADRs
+	for _, p := range createSeqFamily() {
+		emit(Desc{E: ECreateSeq, P: p}, "session-table-boundary")
 	}
 	// SSE reader
 	nsse := 25
